@@ -71,3 +71,15 @@ claim("C23", "mc-loom", "model_checking",
       "loom controlled-scheduler exploration of the real BufferPool with a linearizability oracle against a reference pool",
       "2 threads x <=2 operations and 3 threads x 1 operation over alloc<T>/add/alloc-then-return/PoolRef-drop with capacities around the 128-byte threshold and element types of equal and different size/alignment, on pools pre-seeded with 0-2 buffers; in every schedule up to the preemption bound: capacity >= requested, layout of a reused buffer valid for the requested type, no buffer held twice, hit/alloc counters and pool size balance with the number of buffers added, and the per-operation outcome vector equals that of some sequential order on a best-fit reference pool.",
       "loom's memory model for its own primitives; double free/leak is inferred from the bookkeeping balance, not from an allocator-level detector.")
+claim("C35", "mc-misc", "exploration",
+      "exhaustive lattice point-sequence enumeration with exact integer geometric predicates",
+      "Every sequence of <=5 (thorough 6) points of the 4x4 integer lattice (repeats, collinear runs) and its images under scalings/translations; convex_hull (vertices subset of input, convex, contains all points), min_area_rect (contains all points), simplify_polyline/polygon for eps in {0,0.5,1,2} (first point kept, subsequence, dropped points within eps) judged with exact i64 cross products on the lattice pre-image.",
+      "Rectangle containment uses a small relative slack in f64; extreme scalings (2^+-70) are observation only.")
+claim("C36", "mc-misc", "exploration",
+      "exhaustive binary-mask and shape-coordinate enumeration with flood-fill and bounding-box oracles",
+      "All binary masks of sizes up to 4x4 plus 3x5, 5x3 and strips (thorough up to 5x5: 33.5M masks), both retrieval modes: contour points in range, foreground, border-adjacent, every component has an outer contour of its own pixels. Drawing on 4x4 (and other) images: every rectangle, line and polygon (<=4 vertices) on a lattice extending outside the image, several stroke widths: changed pixels must lie in image ∩ shape bounding box (inflated by stroke width). Drawing runs in isolated workers with a CPU-time watchdog.",
+      "A panic in a drawing primitive is an observation (statement constrains which pixels change); zero-width polygons for fill_iter on a sub-lattice only (evidence says exhaustive:false for that family).")
+claim("C39", "mc-misc", "exploration",
+      "exhaustive simplex-lattice matrix enumeration with brute-force alignment oracle",
+      "Every [T,L] log-probability matrix with rows on a simplex lattice (T<=3, L<=3, denominators 4 and 5; thorough 65 sub-boxes up to T=7) x beam widths 1..12,16,20 x n-best 1..12: greedy equals the collapsed arg-max path and its score; beam results have distinct label sequences, finite scores on positive matrices, scores never above the exact log-probability (all alignments enumerated in f64) and exact when the beam is at least as wide as the number of distinct collapsed sequences.",
+      "Tolerance 1e-4 on log scores; arg-max ties accept any maximal path.")
